@@ -2,13 +2,14 @@ import RustCcModel.Proofs.CountsOps
 /-! `Counts` through the field operations and the simple operations (one theorem per operation). -/
 namespace RustCc
 open World
+variable {ex : Bool}
 
 theorem getSlot_cloneOk (w : World) (x t : Id) (s : Slot) : getSlot ((w.cloneOk x).heap t) s = getSlot (w.heap t) s := by
   unfold cloneOk removeFromList
   cases s <;> split <;> by_cases h : t = x <;> simp [getSlot, upd, Heap.set, h]
 
-theorem execOp_counts_setf (c : Cfg) (w : World) (self wc : Option Id) (n : NRef) (s : Slot) (r : CRef) (h : Counts w)
-    (hself : ∀ s, self = some s → s < w.next) : Counts (execOp c w self wc (.setf n s r)) := by
+theorem execOp_counts_setf (c : Cfg) (w : World) (self wc : Option Id) (n : NRef) (s : Slot) (r : CRef) (h : CountsG ex w)
+    (hself : ∀ s, self = some s → s < w.next) : CountsG ex (execOp c w self wc (.setf n s r)) := by
   have hH := h.toH
   simp only [execOp]
   split
@@ -22,8 +23,8 @@ theorem execOp_counts_setf (c : Cfg) (w : World) (self wc : Option Id) (n : NRef
         have hs' : getSlot ((w.cloneOk x).heap t) s = some old := by rw [getSlot_cloneOk]; exact hold
         have h2 := (h1.putField (t := t) (by simpa using htlt) hs').ret Ret.ok
         cases old with
-        | none => exact CountsH.toCounts h2
-        | some y => exact (CountsH.pushFrame (.dropCc y) h2 (by intro i hi; cases hi)).toCounts
+        | none => exact CountsH.toCounts0 h2
+        | some y => exact (CountsH.pushFrame (.dropCc y) h2 (by intro i hi; cases hi)).toCounts0
       · exact h.raise
     · exact h.congr rfl rfl rfl rfl rfl rfl rfl
   · exact h.congr rfl rfl rfl rfl rfl rfl rfl
@@ -32,8 +33,8 @@ theorem getSlot_mem_fields {o : Obj} {s : Slot} {y : Id} (h : getSlot o s = some
   | f i => exact slot_mem_fields (i := i) (by simp only [getSlot] at h; rw [List.getD_eq_getElem?_getD, h]; rfl)
   | u i => exact uslot_mem_fields (i := i) (by simp only [getSlot] at h; rw [List.getD_eq_getElem?_getD, h]; rfl)
 
-theorem execOp_counts_movef (c : Cfg) (w : World) (self wc : Option Id) (n : NRef) (s : Slot) (k : Nat) (h : Counts w)
-    (hself : ∀ s, self = some s → s < w.next) : Counts (execOp c w self wc (.movef n s k)) := by
+theorem execOp_counts_movef (c : Cfg) (w : World) (self wc : Option Id) (n : NRef) (s : Slot) (k : Nat) (h : CountsG ex w)
+    (hself : ∀ s, self = some s → s < w.next) : CountsG ex (execOp c w self wc (.movef n s k)) := by
   have hH := h.toH
   simp only [execOp]
   split
@@ -47,13 +48,13 @@ theorem execOp_counts_movef (c : Cfg) (w : World) (self wc : Option Id) (n : NRe
         have hs' : getSlot ((w.setH k none).heap t) s = some old := hold
         have h2 := (h1.putField (t := t) htlt hs').ret Ret.ok
         cases old with
-        | none => exact CountsH.toCounts h2
-        | some y => exact (CountsH.pushFrame (.dropCc y) h2 (by intro i hi; cases hi)).toCounts
+        | none => exact CountsH.toCounts0 h2
+        | some y => exact (CountsH.pushFrame (.dropCc y) h2 (by intro i hi; cases hi)).toCounts0
       · exact h.congr rfl rfl rfl rfl rfl rfl rfl
     · exact h.congr rfl rfl rfl rfl rfl rfl rfl
 
-theorem execOp_counts_clrf (c : Cfg) (w : World) (self wc : Option Id) (n : NRef) (s : Slot) (h : Counts w)
-    (hself : ∀ s, self = some s → s < w.next) : Counts (execOp c w self wc (.clrf n s)) := by
+theorem execOp_counts_clrf (c : Cfg) (w : World) (self wc : Option Id) (n : NRef) (s : Slot) (h : CountsG ex w)
+    (hself : ∀ s, self = some s → s < w.next) : CountsG ex (execOp c w self wc (.clrf n s)) := by
   have hH := h.toH
   simp only [execOp]
   split
@@ -61,12 +62,12 @@ theorem execOp_counts_clrf (c : Cfg) (w : World) (self wc : Option Id) (n : NRef
     have htlt := resolveN_lt h hself ht
     split
     · rename_i y hy
-      exact (CountsH.pushFrame (.dropCc y) ((hH.clearField htlt hy).ret _) (by intro i hi; cases hi)).toCounts
+      exact (CountsH.pushFrame (.dropCc y) ((hH.clearField htlt hy).ret _) (by intro i hi; cases hi)).toCounts0
     · exact h.congr rfl rfl rfl rfl rfl rfl rfl
   · exact h.congr rfl rfl rfl rfl rfl rfl rfl
 
-theorem execOp_counts_takef (c : Cfg) (w : World) (self wc : Option Id) (n : NRef) (s : Slot) (k : Nat) (h : Counts w)
-    (hself : ∀ s, self = some s → s < w.next) : Counts (execOp c w self wc (.takef n s k)) := by
+theorem execOp_counts_takef (c : Cfg) (w : World) (self wc : Option Id) (n : NRef) (s : Slot) (k : Nat) (h : CountsG ex w)
+    (hself : ∀ s, self = some s → s < w.next) : CountsG ex (execOp c w self wc (.takef n s k)) := by
   have hH := h.toH
   simp only [execOp]
   split
@@ -78,12 +79,12 @@ theorem execOp_counts_takef (c : Cfg) (w : World) (self wc : Option Id) (n : NRe
       · exact h.congr rfl rfl rfl rfl rfl rfl rfl
       · rename_i hk
         obtain ⟨hnone, hklt⟩ := not_occupied hk
-        exact (((hH.clearField htlt hy).putTable (by simpa [getH] using hnone) (by simpa using hklt)).ret _).toCounts
+        exact (((hH.clearField htlt hy).putTable (by simpa [getH] using hnone) (by simpa using hklt)).ret _).toCounts0
     · exact h.congr rfl rfl rfl rfl rfl rfl rfl
   · exact h.congr rfl rfl rfl rfl rfl rfl rfl
 
-theorem execOp_counts_getf (c : Cfg) (w : World) (self wc : Option Id) (n : NRef) (s : Slot) (k : Nat) (h : Counts w)
-    (hself : ∀ s, self = some s → s < w.next) : Counts (execOp c w self wc (.getf n s k)) := by
+theorem execOp_counts_getf (c : Cfg) (w : World) (self wc : Option Id) (n : NRef) (s : Slot) (k : Nat) (h : CountsG ex w)
+    (hself : ∀ s, self = some s → s < w.next) : CountsG ex (execOp c w self wc (.getf n s k)) := by
   have hH := h.toH
   simp only [execOp]
   split
@@ -97,21 +98,21 @@ theorem execOp_counts_getf (c : Cfg) (w : World) (self wc : Option Id) (n : NRef
       · rename_i hk
         obtain ⟨hnone, hklt⟩ := not_occupied hk
         split
-        · exact (((hH.clone y hylt).putTable (by simpa [getH] using hnone) (by simpa using hklt)).ret _).toCounts
+        · exact (((hH.clone y hylt).putTable (by simpa [getH] using hnone) (by simpa using hklt)).ret _).toCounts0
         · exact h.raise
     · exact h.congr rfl rfl rfl rfl rfl rfl rfl
   · exact h.congr rfl rfl rfl rfl rfl rfl rfl
 
-theorem execOp_counts_markAlive (c : Cfg) (w : World) (self wc : Option Id) (r : CRef) (h : Counts w) :
-    Counts (execOp c w self wc (.markAlive r)) := by
+theorem execOp_counts_markAlive (c : Cfg) (w : World) (self wc : Option Id) (r : CRef) (h : CountsG ex w) :
+    CountsG ex (execOp c w self wc (.markAlive r)) := by
   have hH := h.toH
   simp only [execOp]
   split
-  · exact ((hH.removeFromList _).ret _).toCounts
+  · exact ((hH.removeFromList _).ret _).toCounts0
   · exact h.congr rfl rfl rfl rfl rfl rfl rfl
 
-theorem execOp_counts_finAgain (c : Cfg) (w : World) (self wc : Option Id) (k : Nat) (h : Counts w) :
-    Counts (execOp c w self wc (.finAgain k)) := by
+theorem execOp_counts_finAgain (c : Cfg) (w : World) (self wc : Option Id) (k : Nat) (h : CountsG ex w) :
+    CountsG ex (execOp c w self wc (.finAgain k)) := by
   have hH := h.toH
   simp only [execOp]
   split
@@ -119,22 +120,22 @@ theorem execOp_counts_finAgain (c : Cfg) (w : World) (self wc : Option Id) (k : 
     · exact h.congr rfl rfl rfl rfl rfl rfl rfl
     · split
       · exact h.raise
-      · exact ((hH.upd_same _ _ rfl rfl).ret _).toCounts
+      · exact ((hH.upd_same _ _ rfl rfl).ret _).toCounts0
   · exact h.congr rfl rfl rfl rfl rfl rfl rfl
 
-theorem execOp_counts_collect (c : Cfg) (w : World) (self wc : Option Id) (h : Counts w) :
-    Counts (execOp c w self wc .collect) := by
+theorem execOp_counts_collect (c : Cfg) (w : World) (self wc : Option Id) (h : CountsG ex w) :
+    CountsG ex (execOp c w self wc .collect) := by
   have hH := h.toH
   simp only [execOp]
   split
   · exact h.ret _
   · split
-    · exact (((hH.ret _).pushPlain _ rfl rfl).startCollect).toCounts
-    · exact ((hH.ret _).startCollect).toCounts
+    · exact (((hH.ret _).pushPlain _ rfl rfl).startCollect).toCounts0
+    · exact ((hH.ret _).startCollect).toCounts0
 
-theorem execOp_counts_cfg (c : Cfg) (w : World) (self wc : Option Id) (h : Counts w) :
-    (∀ b, Counts (execOp c w self wc (.cfgAuto b))) ∧ (∀ b, Counts (execOp c w self wc (.cfgBuf b))) ∧
-    (∀ b, Counts (execOp c w self wc (.cfgPct b))) := by
+theorem execOp_counts_cfg (c : Cfg) (w : World) (self wc : Option Id) (h : CountsG ex w) :
+    (∀ b, CountsG ex (execOp c w self wc (.cfgAuto b))) ∧ (∀ b, CountsG ex (execOp c w self wc (.cfgBuf b))) ∧
+    (∀ b, CountsG ex (execOp c w self wc (.cfgPct b))) := by
   refine ⟨?_, ?_, ?_⟩ <;> intro b <;> simp only [execOp] <;> split <;>
     first | exact h.congr rfl rfl rfl rfl rfl rfl rfl | exact h.congr rfl rfl rfl rfl rfl rfl rfl
 
